@@ -75,7 +75,7 @@ TIME_FLOOR = 0.004          # untraced seconds below which a series is not exami
 TIME_SUSPECT = 1.25         # time ratio / byte ratio of the last doubling that triggers the extended timing
 TIME_SUPER = 1.5            # ... that is reported as 'clearly superlinear' after the extension (quadratic -> 2)
 TIME_CHEAP = 0.03           # every series whose largest run is faster than this is timed at 16s and 32s as well
-TIME_STOP = 1.5             # stop extending once a single parse takes this long
+TIME_STOP = 0.25            # stop extending once a single parse takes this long
 ENTRY_SLACK = 40            # events by which the three entry points may differ
 TICK_ALPHA, TICK_BETA = 40, 400        # events <= ALPHA * ticks + BETA on the modelled classes
 
@@ -872,7 +872,7 @@ def time_note(name, shape, cls, build, cap, rows):
     rt, rb = time_growth(ext_rows)
     if ext_rows[-1]['secs'] < TIME_FLOOR or rt < TIME_SUSPECT * rb:
         return None, False
-    ext_rows = time_rows(cls, build, cap, ext_rows, upto=2)
+    ext_rows = time_rows(cls, build, cap, ext_rows, upto=1)
     rt, rb = time_growth(ext_rows)
     if rt < TIME_SUPER * rb:
         return None, False
@@ -1105,10 +1105,20 @@ def run_ticks(run, driver_ok, deep):
 def run(run, driver_ok=True, deep=False):  # pylint: disable=redefined-outer-name
     deep = deep or run.tier == 'thorough'
     run.time_notes = []
+    phases = []
+    t0 = time.time()
     table = run_shapes(run)
+    phases.append(('shapes', time.time() - t0))
+    t0 = time.time()
     run_declared(run)
+    phases.append(('declared', time.time() - t0))
+    t0 = time.time()
     run_corpus(run, n_mut=3 if not deep else 12)
+    phases.append(('corpus', time.time() - t0))
+    t0 = time.time()
     run_ticks(run, driver_ok, deep)
+    phases.append(('ticks', time.time() - t0))
+    run.notes.append('phases (s): ' + ', '.join('{} {:.1f}'.format(k, v) for k, v in phases))
     if table:
         key = ('HttpHeaderFields', 'many-unparsed')
         for k in (key, ('TlsHandshakeClientHello', 'many-cipher-suites'), ('SshKeyExchangeInit', 'huge-name')):
